@@ -406,8 +406,83 @@ def work_bfs(shard):
     return part
 
 
+# ---------------------------------------------------------------------------
+# statements refused under an error trap: the cursor (with a pending wrap) stays where it was.  (Typed in direct mode a
+# refused statement prints its message, which moves the cursor; inside a program with ON ERROR GOTO / RESUME NEXT
+# nothing is printed, so the position after the refusal can be compared with the program that lacks the statement.
+# A LOCATE with a valid (or omitted) position and a bad later argument - LOCATE 3,1,2, LOCATE ,,,32,1 - moves the cursor before it is refused: what a
+# statement refused part-way has already done is not specified, and such forms are not in the list.)
+
+REFUSED_CURSOR = [b'LOCATE 26,1', b'LOCATE 0,1', b'LOCATE 3,%(over)d', b'LOCATE ,0',
+                  b'VIEW PRINT 4 TO 2', b'VIEW PRINT 0 TO 3', b'WIDTH 50', b'COLOR 99', b'SCREEN 99', b'KEY 99,"x"',
+                  b'ERROR 5', b'X=1/0+LOG(0)']
+REFUSED_STARTS = [('pending', b'LOCATE 3,1:PRINT STRING$(%(w)d,"x");'), ('mid', b'LOCATE 3,5:PRINT "ab";'),
+                  ('last-row', b'LOCATE 24,1:PRINT STRING$(%(w)d,"y");'), ('row25', b'KEY OFF:LOCATE 25,3:PRINT "k";')]
+
+
+def refused_cases():
+    return [(cid, st, ri) for cid in CONFIGS for st in range(len(REFUSED_STARTS)) for ri in range(len(REFUSED_CURSOR))]
+
+
+def _refused_run(cid, start, stmt):
+    cfg = CONFIGS[cid]
+    s = H.new_session(**cfg['kw'])
+    try:
+        for st in cfg['setup']:
+            H.run(s, st)
+        lines = [b'10 ON ERROR GOTO 90', b'20 ' + start, b'30 ' + (stmt or b'REM'), b'40 R%=CSRLIN:C%=POS(0)',
+                 b'50 PRINT "Z";', b'60 END', b'90 E%=E%+1:RESUME NEXT']
+        for l in lines:
+            r = H.run(s, l)
+            if r.exc is not None or r.out.strip():
+                raise CheckError('line not accepted: %r -> %r' % (l, r))
+        r = H.run(s, b'RUN')
+        if r.exc is not None:
+            return ('exc', H.exc_key(r.exc), repr(r.exc))
+        rows = [b''.join(row) for row in s.get_chars()]
+        return ('ok', r.err, s.get_variable('E%'), (s.get_variable('R%'), s.get_variable('C%')), rows)
+    finally:
+        s.close()
+
+
+def work_refused(shard):
+    part = Partial()
+    for cid, sti, ri in shard:
+        w = CONFIGS[cid]['w']
+        start = REFUSED_STARTS[sti][1].replace(b'%(w)d', b'%d' % w)
+        stmt = REFUSED_CURSOR[ri].replace(b'%(over)d', b'%d' % (w + 1))
+        case = {'cid': cid, 'start': sti, 'refused': ri}
+        ref = _refused_run(cid, start, None)
+        got = _refused_run(cid, start, stmt)
+        part.n += 1
+        part.traces += 2
+        name = stmt.split(b' ')[0].decode() if b'=' not in stmt else 'LET'
+        if ref[0] != 'ok':
+            raise CheckError('reference program failed: %r' % (ref,))
+        if got[0] == 'exc':
+            part.violation('refused/host-exception/%s' % got[1], '%r under a trap: %s' % (stmt, got[2]), case)
+            continue
+        if got[2] == 0:
+            # accepted in this mode (e.g. a WIDTH or COLOR value that is legal here): not what this leg is about
+            part.outcome('not-refused')
+            continue
+        part.classes.add('refused/%s/%s/%s' % (cid, REFUSED_STARTS[sti][0], name))
+        if got[3] != ref[3] or got[4] != ref[4]:
+            bad = [i + 1 for i in range(len(ref[4])) if got[4][i] != ref[4][i]]
+            part.violation('refused/cursor-moved/%s/%s' % (REFUSED_STARTS[sti][0], name),
+                           '%s: after %r the trapped %r leaves CSRLIN,POS = %r (without the statement %r); text rows that differ '
+                           'after PRINT "Z": %r' % (cid, start, stmt, got[3], ref[3], bad[:4]), case)
+    part.sample({'refused': list(shard[0])})
+    return part
+
+
 def legs(ctx):
     out = []
+    rc = refused_cases()
+    out.append(Leg('refused-cursor', [rc[i::8] for i in range(8)], work_refused, exhaustive=True,
+                   bound='%d programs: 4 configurations x 4 cursor states (wrap pending at the right margin, mid row, wrap pending on row 24, '
+                         'row 25) x %d statements refused under ON ERROR GOTO / RESUME NEXT: CSRLIN, POS and the place of the next character '
+                         'equal those of the program without the statement' % (len(rc), len(REFUSED_CURSOR))))
     if ctx.quick:
         plan = [(cid, True, 2, None) for cid in CONFIGS] + [(cid, False, 3, None) for cid in ('t80', 's1')]
         plan += [(cid, 'modesv', 4, None) for cid in ('t80', 's1')]
@@ -425,6 +500,8 @@ def legs(ctx):
 
 
 def replay(ctx, leg, case):
+    if leg == 'refused-cursor':
+        return work_refused([(case['cid'], case['start'], case['refused'])])
     part = Partial()
     hist = case['history']
     cid = hist[0]
